@@ -10,6 +10,7 @@ operations regenerated from the source on every run, compared below with the inv
 -/
 import SpdxVerif.Lemmas.GoShaped
 import SpdxVerif.Lemmas.GoScan
+import SpdxVerif.Lemmas.GoDeref
 import SpdxVerif.Spec.Census
 namespace Spdx.C03
 
@@ -33,6 +34,19 @@ theorem g_scan_never_panics (s : Bytes) : G.scanG s ≠ .panic := by
 theorem g_parse_full_never_panics (s : Bytes) : G.parseG s ≠ .panic := by
   obtain ⟨r, h⟩ := G.parseG_ok s
   rw [h]; intro hc; cases hc
+
+/-- behind the parser: `reconstructedLicenseString()` returns nil for expression nodes and is dereferenced without a check by
+    `ExtractLicenses`, `sortAndDedup`, `deepSort` and `sortLicenses`; only terms ever reach those dereferences -/
+theorem g_extract_never_derefs_nil (s : Bytes) (n : Node) (_h : parse s = .ok n) : G.extractG n ≠ .panic := by
+  rw [G.extractG_ok]; intro hc; cases hc
+
+theorem g_satisfies_never_derefs_nil (e : Bytes) (L : List Bytes) (n : Node) (A : List Node)
+    (_he : parse e = .ok n) (hA : toNodes L = .ok A) : G.satisfiesKeysG n A ≠ .panic := by
+  rw [G.satisfiesKeysG_ok n L A hA]; intro hc; cases hc
+
+/-- … and the dereference IS a panic on an expression node (the layer can express the defect) -/
+example : (match G.renderG (.and (.lic [77,73,84] false none) (.lic [73,83,67] false none)) with | .panic => true | .ok _ => false) = true := by
+  decide
 
 /-- each cursor-reading helper on its own, for every cursor position (including past the end) -/
 theorem g_helpers_never_panic (t : G.TS) (o : Op) :
